@@ -193,8 +193,11 @@ pub fn shape_texts(thorough: bool) -> Vec<(String, String)> {
         add("nested-calls", n, format!("fn v_id(v_x: int)->int{{ v_x }}\nfn main()->bool{{ {}1{} == 1 }}", "v_id(".repeat(n), ")".repeat(n)));
         add("nested-if", n, format!("fn main()->bool{{ {}1{} == 1 }}", "if(true, ".repeat(n), ", 0)".repeat(n)));
         add("nested-lambda-calls", n.min(24), format!("fn main()->bool{{ {}1{} == 1 }}", "((v_x: int)->{ ".repeat(n.min(24)), " })(1)".repeat(n.min(24))));
-        add("nested-generic-type", n.min(24), format!("fn v_f(v_x: {}int{})->int{{ 1 }}\nfn main()->bool{{ true }}", "Sequence<".repeat(n.min(24)), ">".repeat(n.min(24))));
-        add("nested-tuple-type", n.min(24), format!("fn v_f(v_x: {}int{})->int{{ 1 }}\nfn main()->bool{{ true }}", "(".repeat(n.min(24)), ", int)".repeat(n.min(24))));
+        add("nested-generic-type", n, format!("fn v_f(v_x: {}int{})->int{{ 1 }}\nfn main()->bool{{ true }}", "Sequence<".repeat(n), ">".repeat(n)));
+        add("nested-tuple-type", n, format!("fn v_f(v_x: {}int{})->int{{ 1 }}\nfn main()->bool{{ true }}", "(".repeat(n), ", int)".repeat(n)));
+        add("nested-tuple-type-last", n, format!("fn v_f(v_x: {}int{})->int{{ 1 }}\nfn main()->bool{{ true }}", "(int, ".repeat(n), ")".repeat(n)));
+        add("nested-function-type", n.min(24), format!("fn v_f(v_x: {}int{})->int{{ 1 }}\nfn main()->bool{{ true }}", "()->(".repeat(n.min(24)), ")".repeat(n.min(24))));
+        add("nested-struct-field-type", n, format!("struct V_W(v_a: {}int{})\nfn main()->bool{{ true }}", "Optional<".repeat(n), ">".repeat(n)));
         add("nested-optional-value", n.min(24), format!("fn main()->bool{{ {}1{}.has_value() }}", "some(".repeat(n.min(24)), ")".repeat(n.min(24))));
         add("struct-member-chain", n, format!("struct V_N(v_n: V_N, v_v: int)\nfn v_f(v_x: V_N)->int{{ v_x{}::v_v }}\nfn main()->bool{{ true }}", "::v_n".repeat(n)));
         add("tuple-member-chain", n.min(24), format!("fn main()->bool{{ let v_t = {}1{}; v_t{} == 1 }}", "(".repeat(n.min(24)), ", 0)".repeat(n.min(24)), "::item0".repeat(n.min(24))));
